@@ -22,6 +22,7 @@ import (
 
 	"github.com/apernet/quic-go"
 
+	"github.com/apernet/hysteria/core/v2/internal/frag"
 	"github.com/apernet/hysteria/core/v2/internal/protocol"
 	"pgregory.net/rapid"
 )
@@ -67,6 +68,7 @@ type v05cSent struct {
 	fragCount uint8
 	addr      string
 	data      []byte
+	lim       int // the link's datagram limit when this one was accepted
 }
 
 // v05cIO implements the client's udpIO.
@@ -76,6 +78,8 @@ type v05cIO struct {
 	refused   int // calls answered with DatagramTooLargeError
 	calls     int
 	failAt    int // 1-based call index answered with a generic error (0 = never)
+	limit2    int // the link's limit from call changeAt on (path MTU change in the middle of a send)
+	changeAt  int // 1-based call index (0 = the limit never changes)
 	stop      chan struct{}
 }
 
@@ -93,11 +97,15 @@ func (f *v05cIO) SendMessage(buf []byte, m *protocol.UDPMessage) error {
 		return v05cErrInjected
 	}
 	size := v05cHeaderSize(len(m.Addr)) + len(m.Data)
-	if size > f.limit {
-		f.refused++
-		return &quic.DatagramTooLargeError{MaxDatagramPayloadSize: int64(f.limit)}
+	lim := f.limit
+	if f.changeAt > 0 && f.calls >= f.changeAt {
+		lim = f.limit2
 	}
-	f.delivered = append(f.delivered, v05cSent{m.SessionID, m.PacketID, m.FragID, m.FragCount, m.Addr, append([]byte(nil), m.Data...)})
+	if size > lim {
+		f.refused++
+		return &quic.DatagramTooLargeError{MaxDatagramPayloadSize: int64(lim)}
+	}
+	f.delivered = append(f.delivered, v05cSent{m.SessionID, m.PacketID, m.FragID, m.FragCount, m.Addr, append([]byte(nil), m.Data...), lim})
 	return nil
 }
 
@@ -106,10 +114,15 @@ type v05cCase struct {
 	sid                        uint32
 	seed                       int64
 	failAt                     int
+	limit2, changeAt           int
 }
 
 func (c v05cCase) String() string {
-	return fmt.Sprintf("payload=%d addr=%d limit=%d (hdr=%d) sid=%d randseed=%d failAt=%d", c.payloadLen, c.addrLen, c.limit, v05cHeaderSize(c.addrLen), c.sid, c.seed, c.failAt)
+	s := fmt.Sprintf("payload=%d addr=%d limit=%d (hdr=%d) sid=%d randseed=%d failAt=%d", c.payloadLen, c.addrLen, c.limit, v05cHeaderSize(c.addrLen), c.sid, c.seed, c.failAt)
+	if c.changeAt > 0 {
+		s += fmt.Sprintf(" limit->%d from link call %d", c.limit2, c.changeAt)
+	}
+	return s
 }
 
 func v05cGen(t *rapid.T, maxPayload int) v05cCase {
@@ -154,6 +167,19 @@ func v05cGen(t *rapid.T, maxPayload int) v05cCase {
 	if rapid.IntRange(0, 9).Draw(t, "injectFailure") == 0 {
 		c.failAt = rapid.IntRange(1, 6).Draw(t, "failAt")
 	}
+	if rapid.IntRange(0, 5).Draw(t, "limitChanges") == 0 {
+		// the datagram limit changes after >= 1 fragment is out (call 1 = unfragmented attempt, call 2 = fragment 0)
+		b1 := rapid.IntRange(2, 1400).Draw(t, "budget1")
+		k := rapid.IntRange(2, 8).Draw(t, "fragments")
+		c.payloadLen = b1*(k-1) + rapid.IntRange(1, b1).Draw(t, "lastFragment")
+		b2 := rapid.IntRange(1, b1+20).Draw(t, "budget2")
+		if minSame := (c.payloadLen + k - 1) / k; minSame <= b1-1 && rapid.IntRange(0, 2).Draw(t, "sameCount") != 0 {
+			b2 = rapid.IntRange(minSame, b1-1).Draw(t, "budget2same") // same fragment count, other boundaries
+		}
+		c.limit, c.limit2 = hdr+b1, hdr+b2
+		c.changeAt = 2 + rapid.IntRange(1, k-1).Draw(t, "changeAtFragment")
+		c.failAt = 0
+	}
 	return c
 }
 
@@ -175,12 +201,35 @@ func v05cCheckDelivered(c v05cCase, addr string, payload []byte, io *v05cIO, ret
 	need := v05cNeed(c)
 	hdr := v05cHeaderSize(c.addrLen)
 	for i, d := range io.delivered {
-		if hdr+len(d.data) > c.limit {
-			return fmt.Errorf("delivery %d has wire size %d > limit %d", i, hdr+len(d.data), c.limit)
+		if hdr+len(d.data) > d.lim {
+			return fmt.Errorf("delivery %d has wire size %d > limit %d", i, hdr+len(d.data), d.lim)
 		}
 		if d.sid != c.sid || d.addr != addr {
 			return fmt.Errorf("delivery %d changed session/address (sid=%d addr=%q)", i, d.sid, d.addr)
 		}
+	}
+	// receiver side: everything the link delivered, in order, through the wire format into the far
+	// side's reassembler. Whatever the sender returned, the far side gets the message or nothing.
+	changed := c.changeAt > 0 && io.calls >= c.changeAt
+	emitted, err := v05cReceive(io)
+	if err != nil {
+		return err
+	}
+	for _, e := range emitted {
+		if e.SessionID != c.sid || e.Addr != addr || !bytes.Equal(e.Data, payload) {
+			return fmt.Errorf("the receiver reassembled a %d-byte message from the %d delivered datagrams that differs from the %d-byte message that was sent (send returned %v)", len(e.Data), len(io.delivered), len(payload), ret)
+		}
+	}
+	if len(emitted) > 1 {
+		return fmt.Errorf("the receiver got the message %d times", len(emitted))
+	}
+	if !failed && !changed && (need == -1 || (need >= 1 && need <= 255)) && len(emitted) != 1 {
+		return fmt.Errorf("deliverable message (fragments needed=%d) did not come out of the receiver's reassembler (%d datagrams delivered)", need, len(io.delivered))
+	}
+	if changed {
+		// the link refused a fragment because its limit changed mid-send: the message may be lost or
+		// re-sent in any form; only the receiver-side all-or-nothing rule above applies
+		return nil
 	}
 	// failed: an injected environment failure hit one of the sends. The message may then be
 	// lost, but whatever was delivered must still be the whole message or a prefix of a
@@ -254,11 +303,37 @@ func v05cCheckDelivered(c v05cCase, addr string, payload []byte, io *v05cIO, ret
 	return nil
 }
 
+// v05cReceive feeds the link's deliveries, serialized and parsed back, into one frag.Defragger.
+func v05cReceive(io *v05cIO) (out []*protocol.UDPMessage, err error) {
+	defer func() {
+		if r := recover(); r != nil {
+			err = fmt.Errorf("receiver panic: %v", r)
+		}
+	}()
+	d := &frag.Defragger{}
+	for i, s := range io.delivered {
+		m := &protocol.UDPMessage{SessionID: s.sid, PacketID: s.pid, FragID: s.fragID, FragCount: s.fragCount, Addr: s.addr, Data: s.data}
+		buf := make([]byte, m.Size())
+		n := m.Serialize(buf)
+		if n != len(buf) {
+			return nil, fmt.Errorf("delivery %d does not serialize (%d of %d bytes)", i, n, len(buf))
+		}
+		p, perr := protocol.ParseUDPMessage(buf[:n:n])
+		if perr != nil {
+			return nil, fmt.Errorf("delivery %d is rejected by the receiver's parser: %v", i, perr)
+		}
+		if e := d.Feed(p); e != nil {
+			out = append(out, e)
+		}
+	}
+	return out, nil
+}
+
 func v05cRun(c v05cCase) (io *v05cIO, err error) {
 	rand.Seed(c.seed)
 	payload := v05cPayload(c.payloadLen, uint32(c.seed))
 	addr := v05cAddr(c.addrLen, int(c.sid%39))
-	io = &v05cIO{limit: c.limit, failAt: c.failAt, stop: make(chan struct{})}
+	io = &v05cIO{limit: c.limit, failAt: c.failAt, limit2: c.limit2, changeAt: c.changeAt, stop: make(chan struct{})}
 	m := newUDPSessionManager(io)
 	defer close(io.stop)
 	// the session ID is chosen by the manager (1, 2, ...): open (sid mod 3)+1 sessions, use the last
@@ -306,6 +381,9 @@ func v05cClasses(c v05cCase, io *v05cIO) (bool, []string) {
 	if c.failAt > 0 && io != nil && io.calls >= c.failAt {
 		cls = append(cls, "send-failure-injected")
 	}
+	if c.changeAt > 0 && io != nil && io.calls >= c.changeAt {
+		cls = append(cls, "limit-changed-mid-send")
+	}
 	nt := need >= 2 || need == 0 || (budget >= -2 && budget <= 2)
 	return nt, cls
 }
@@ -317,7 +395,7 @@ func TestVerifC05_ClientSendPath(t *testing.T) {
 		c := v05cGen(rt, 65535)
 		io, err := v05cRun(c)
 		nt, cls := v05cClasses(c, io)
-		st.Case(nt, fmt.Sprintf("%d/%d/%d/%d", c.payloadLen, c.addrLen, c.limit, c.failAt), cls, func() string {
+		st.Case(nt, fmt.Sprintf("%d/%d/%d/%d/%d/%d", c.payloadLen, c.addrLen, c.limit, c.failAt, c.limit2, c.changeAt), cls, func() string {
 			return fmt.Sprintf("%v -> %d delivered, %d refused", c, len(io.delivered), io.refused)
 		})
 		if err != nil {
@@ -338,6 +416,10 @@ func TestVerifC05_Regress_ClientSendPath(t *testing.T) {
 		{payloadLen: 511, addrLen: 1, limit: v05cHeaderSize(1) + 2, sid: 3, seed: 3},
 		{payloadLen: 255, addrLen: 1, limit: v05cHeaderSize(1) + 1, sid: 4, seed: 4},
 		{payloadLen: 65535, addrLen: 20, limit: 100, sid: 5, seed: 5},
+		// the limit shrinks after fragment 0 is out and gives the same fragment count (3) with other boundaries
+		{payloadLen: 2900, addrLen: 9, limit: v05cHeaderSize(9) + 1000, sid: 6, seed: 6, limit2: v05cHeaderSize(9) + 990, changeAt: 3},
+		{payloadLen: 2900, addrLen: 9, limit: v05cHeaderSize(9) + 1000, sid: 6, seed: 6, limit2: v05cHeaderSize(9) + 990, changeAt: 4},
+		{payloadLen: 2000, addrLen: 9, limit: v05cHeaderSize(9) + 1000, sid: 6, seed: 6, limit2: v05cHeaderSize(9) + 700, changeAt: 3},
 	} {
 		io, err := v05cRun(c)
 		_, cls := v05cClasses(c, io)
